@@ -8,8 +8,11 @@ CONSTANTS
   NAOps = TRUE
   PermOps = TRUE
   MaxSel = 2
+  UnseenOps = TRUE
+  SubsetOps = TRUE
 INVARIANT SubsetReproduces
 INVARIANT ShapeOK
+INVARIANT UnseenTheorem
 INVARIANT GroupBlock
 INVARIANT Export
 PROPERTY PermEquivariant
